@@ -161,6 +161,21 @@ pub struct ExPathBuf(std::path::PathBuf);
 #[verifier::reject_recursive_types(R)]
 //@@ enditem
 
+// writeln!(w.borrow_mut(), "error:{e}") (rewrite writeln_error): one `error:` line on w, or an io::Error. C06/C20: the line goes
+// to the stream the configured policy names and nowhere else — the trusted primitive REQUIRES that of its caller.
+#[verifier::external_body]
+pub fn error_line<E>(w: &vio::Out, e: &E, policy: &OnError) -> std::io::Result<()>
+    requires
+        *policy is Stdout || *policy is Stderr, // @obl LOOP.error_policy : C06 C20
+        *policy is Stdout ==> w.fd() == 1, // @obl LOOP.error_stream.stdout : C06 C20
+        *policy is Stderr ==> w.fd() == 2, // @obl LOOP.error_stream.stderr : C06 C20
+{ unimplemented!() }
+impl<S: Read> Master<S> {
+    // the handles the run was given: `stdout` is the designated output stream, `stderr` the designated diagnostics stream
+    // (established by Master::new from go()'s arguments: unit GO)
+    pub closed spec fn wired(&self) -> bool { self.stdout.fd() == 1 && self.stderr.fd() == 2 }
+}
+
 // the context built for a value: a function of the value, its position and the counters only (C11.fresh, C17)
 pub open spec fn fed_ok(fed: Seq<Context>, i0: u64) -> bool {
     forall|k: int| 0 <= k < fed.len() ==> ((#[trigger] fed[k]).ictx() matches Some(ic) && ic.file_index == k && ic.index == i0 + k)
@@ -199,7 +214,7 @@ impl<S: Read> Master<S> {
 //@@ ret r
 //@@ rewrite break_value writeln_error
 //@@ header
-        requires old(reader).wf(), old(reader).room(), old(process).inv(),
+        requires old(reader).wf(), old(reader).room(), old(process).inv(), self.wired(),
             // the two counters count values, and there are fewer values than bytes: "fewer than 2^64 values in a run"
             *old(index) + old(reader).pending().len() <= u64::MAX,
         ensures
@@ -227,7 +242,7 @@ impl<S: Read> Master<S> {
         proof { assert forall|x: Seq<Context>| #[trigger] fed.add(x) =~= x by {} }
 //@@ loop 1
             invariant
-                reader.wf(), reader.room(), process.inv(),
+                reader.wf(), reader.room(), process.inv(), self.wired(),
                 is_prefix(old(process).log(), process.log()),
                 fed_ok(fed, i0), fed.len() == in_file_index, *index == i0 + in_file_index,
                 *index + reader.pending().len() <= i0 + n0, i0 + n0 <= u64::MAX, i0 == *old(index),
